@@ -256,5 +256,32 @@ Definition crypt2_from_bytes (src : list byte) : res crypt2 :=
 
 Definition crypt2_to_bytes (m : crypt2) : list byte := crypt_to_bytes (r_crypt m) ++ wkey_to_bytes (r_wk m).
 
+(* ---- receivers that are not fresh ----
+   FromBytes* write into an existing struct.  Fields they do not assign keep the receiver's previous value:
+     MessageAuth:   Digest (the matcher pre-fills it with lastDigest; Authenticate/Sign leave the digest they used)
+     MessageCrypt:  PrevPacketIDsCount / ThisPacketID (assigned only by FromBytesCrypt after decryption)
+     MessageCrypt2: the same two fields of the embedded MessageCrypt (StaticKey / MetaData of the WrappedKey are not wire fields)
+   None of these is READ by FromBytes*: the verdict (accepted / which error) and every assigned field are independent of the
+   previous state, which is what the [_st] variants say by construction and the engine checks on reused and pre-filled receivers. *)
+Definition auth_from_headless_st (dg0 : option nat) (src : list byte) (h : header) : res (auth * option nat) :=
+  match auth_from_headless src h with ROk m => ROk (m, dg0) | RErr e => RErr e | RPanic => RPanic end.
+Definition auth_from_bytes_st (dg0 : option nat) (src : list byte) : res (auth * option nat) :=
+  match auth_from_bytes src with ROk m => ROk (m, dg0) | RErr e => RErr e | RPanic => RPanic end.
+Definition crypt_keep (prev0 pid0 : N) (r : res crypt) : res crypt :=
+  match r with
+  | ROk m => ROk {| c_hdr := c_hdr m; c_sid := c_sid m; c_rpid := c_rpid m; c_rts := c_rts m; c_hmac := c_hmac m; c_enc := c_enc m;
+                    c_prev := prev0; c_pid := pid0 |}
+  | e => e
+  end.
+Definition crypt_from_headless_st (prev0 pid0 : N) (src : list byte) (h : header) : res crypt := crypt_keep prev0 pid0 (crypt_from_headless src h).
+Definition crypt_from_bytes_st (prev0 pid0 : N) (src : list byte) : res crypt := crypt_keep prev0 pid0 (crypt_from_bytes src).
+Definition crypt2_keep (prev0 pid0 : N) (r : res crypt2) : res crypt2 :=
+  match r with
+  | ROk m => match crypt_keep prev0 pid0 (ROk (r_crypt m)) with ROk c => ROk {| r_crypt := c; r_wk := r_wk m |} | RErr e => RErr e | RPanic => RPanic end
+  | e => e
+  end.
+Definition crypt2_from_headless_st (prev0 pid0 : N) (src : list byte) (h : header) : res crypt2 := crypt2_keep prev0 pid0 (crypt2_from_headless src h).
+Definition crypt2_from_bytes_st (prev0 pid0 : N) (src : list byte) : res crypt2 := crypt2_keep prev0 pid0 (crypt2_from_bytes src).
+
 (* lengths each parser can accept (used by rejects_wrong_length) *)
 Definition auth_len_ok (n : nat) : Prop := exists s, size_ok s = true /\ n = (plain_total + s + sz_pid + sz_ts)%nat.
